@@ -83,8 +83,8 @@ func (m *MessageServerKeyExchange) Unmarshal(data []byte) error { //nolint:cyclo
 
 	hintLength := binary.BigEndian.Uint16(data)
 	if int(hintLength) <= len(data)-2 && m.KeyExchangeAlgorithm.Has(types.KeyExchangeAlgorithmPsk) {
-		m.IdentityHint = bytes.Clone(data[2 : 2+hintLength])
-		data = data[2+hintLength:]
+		m.IdentityHint = bytes.Clone(data[2 : 2+int(hintLength)])
+		data = data[2+int(hintLength):]
 	}
 	if m.KeyExchangeAlgorithm == types.KeyExchangeAlgorithmPsk {
 		if len(data) == 0 {
